@@ -574,3 +574,68 @@ func (e *Env) ParentOutput(height uint64, ts int64) *chain.OutputBlock {
 	must(err)
 	return &chain.OutputBlock{ExecutionBlock: chain.NewExecutionBlock(sb), View: e.DB}
 }
+
+// UnmarshalOpAction decodes the encoding produced by OpAction.Bytes (so that OpActions can be
+// registered in a codec.TypeParser and sent through APIs that take action bytes).
+func UnmarshalOpAction(b []byte) (chain.Action, error) {
+	bad := errors.New("bad OpAction encoding")
+	if len(b) < 1+32+1 || b[0] != OpActionID {
+		return nil, bad
+	}
+	a := &OpAction{}
+	a.Compute = binary.BigEndian.Uint64(b[1:])
+	a.Nonce = binary.BigEndian.Uint64(b[9:])
+	a.Start = int64(binary.BigEndian.Uint64(b[17:]))
+	a.End = int64(binary.BigEndian.Uint64(b[25:]))
+	p := 33
+	need := func(n int) bool { return p+n <= len(b) }
+	if !need(1) {
+		return nil, bad
+	}
+	nd := int(b[p])
+	p++
+	for i := 0; i < nd; i++ {
+		if !need(1) {
+			return nil, bad
+		}
+		kl := int(b[p])
+		p++
+		if !need(kl + 1) {
+			return nil, bad
+		}
+		a.Declared = append(a.Declared, KeyPerm{Key: string(b[p : p+kl]), Perm: state.Permissions(b[p+kl])})
+		p += kl + 1
+	}
+	if !need(1) {
+		return nil, bad
+	}
+	ns := int(b[p])
+	p++
+	for i := 0; i < ns; i++ {
+		if !need(2) {
+			return nil, bad
+		}
+		kind, kl := StepKind(b[p]), int(b[p+1])
+		p += 2
+		if !need(kl + 4) {
+			return nil, bad
+		}
+		key := string(b[p : p+kl])
+		p += kl
+		vl := int(binary.BigEndian.Uint32(b[p:]))
+		p += 4
+		if !need(vl) {
+			return nil, bad
+		}
+		var val []byte
+		if vl > 0 {
+			val = append([]byte{}, b[p:p+vl]...)
+		}
+		p += vl
+		a.Script = append(a.Script, Step{Kind: kind, Key: key, Val: val})
+	}
+	if p != len(b) {
+		return nil, bad
+	}
+	return a, nil
+}
